@@ -154,3 +154,10 @@ Definition no_silent_class (E : env) (fs : list field) : Prop :=
    the order they were first documented; a `**kwargs` entry comes last (or is left out when explicit
    keywords are documented and it is not). *)
 Definition row_names (rows : list pdesc) : list text := map (fun p => pn_text (pd_name p)) rows.
+
+(* decidable form of `routed`, used to exhibit counterexamples by computation *)
+Definition routedb (i : nat) (f : field) (secs : list section) (reps : list report) : bool :=
+  match entry_of_tag (f_tag f) with
+  | Some e => Nat.eqb (occurrences i secs) 1 && Nat.eqb (occurrences_under (labels_of e) i secs) 1
+  | None => false
+  end || existsb (fun r => Nat.eqb (rp_field r) i) reps.
